@@ -41,4 +41,83 @@ def keptFaces (a b c : Int) : Nat :=
 def segments (a b c : Int) : Nat :=
   if isBasic a b c || isOneVertex a b c || isOneEdge a b c then 1 else 0
 
+/-! ### the section segment of one triangle over exact rationals (`mesh_plane`, its three handlers) -/
+abbrev V := Rat × Rat × Rat
+abbrev Tri := V × V × V
+def dotV (a b : V) : Rat := a.1 * b.1 + a.2.1 * b.2.1 + a.2.2 * b.2.2
+def subV (a b : V) : V := (a.1 - b.1, a.2.1 - b.2.1, a.2.2 - b.2.2)
+def addV (a b : V) : V := (a.1 + b.1, a.2.1 + b.2.1, a.2.2 + b.2.2)
+def smulV (s : Rat) (a : V) : V := (s * a.1, s * a.2.1, s * a.2.2)
+/-- `np.dot(vertices - plane_origin, plane_normal)` -/
+def sdistR (n o p : V) : Rat := dotV (subV p o) n
+/-- sign with the tolerance band of the code: `-1` below `-tol`, `+1` above `tol`, else `0` -/
+def signR (tol d : Rat) : Int := if d < -tol then -1 else if tol < d then 1 else 0
+/-- `plane_lines(..., line_segments=False)`: the point where the line through `a`, `b` meets the plane -/
+def edgePointR (n o a b : V) : V :=
+  addV a (smulV (dotV (subV o a) n / dotV (subV b a) n) (subV b a))
+
+/-- the segment `mesh_plane` emits for one triangle (endpoints in the code's order), `none` when the case
+    table says the triangle contributes nothing -/
+def sectionTri (tol : Rat) (n o : V) (t : Tri) : Option (V × V) :=
+  let a := t.1; let b := t.2.1; let c := t.2.2
+  let sa := signR tol (sdistR n o a); let sb := signR tol (sdistR n o b); let sc := signR tol (sdistR n o c)
+  if isBasic sa sb sc then
+    -- the corner alone on its side, with the crossings of its two edges
+    if sa != sb && sa != sc then some (edgePointR n o a c, edgePointR n o a b)
+    else if sb != sa && sb != sc then some (edgePointR n o b a, edgePointR n o b c)
+    else some (edgePointR n o c b, edgePointR n o c a)
+  else if isOneVertex sa sb sc then
+    -- the corner on the plane and the crossing of the opposite edge
+    if sa == 0 then some (a, edgePointR n o b c)
+    else if sb == 0 then some (b, edgePointR n o a c)
+    else some (c, edgePointR n o a b)
+  else if isOneEdge sa sb sc then
+    -- the two corners on the plane
+    if sa != 0 then some (b, c) else if sb != 0 then some (a, c) else some (a, b)
+  else none
+
+def absR (x : Rat) : Rat := if x < 0 then -x else x
+
+/-! ### the pieces `slice_faces_plane` keeps of one triangle (positive side of the plane) -/
+/-- slice convention: `+1` on the negative side (to be cut away), `-1` on the positive side -/
+def signS (tol d : Rat) : Int := if d < -tol then 1 else if tol < d then -1 else 0
+
+def nth (t : Tri) (k : Nat) : V := match k % 3 with | 0 => t.1 | 1 => t.2.1 | _ => t.2.2
+/-- `int_points[:, j]`: where edge `j -> j+1` meets the plane -/
+def cutPoint (n o : V) (t : Tri) (j : Nat) : V := edgePointR n o (nth t j) (nth t (j + 1))
+
+inductive SlicePieces where
+  | whole                         -- kept as it is
+  | pieces (ts : List Tri)        -- cut: the quad (two triangles) or the corner triangle
+  | dropped
+  | inPlane                       -- all three corners on the plane: decided by the face normal in the code
+  deriving Repr
+
+def sliceTri (tol : Rat) (n o : V) (t : Tri) : SlicePieces :=
+  let s : Nat → Int := fun k => signS tol (sdistR n o (nth t k))
+  let s0 := s 0; let s1 := s 1; let s2 := s 2
+  if zeros s0 s1 s2 == 3 then .inPlane
+  else if onEdge s0 s1 s2 then
+    if cutQuad s0 s1 s2 then
+      -- one corner k outside: quad [v(k+1), v(k+2), P(k+2), P(k)] split as [0,1,2], [2,3,0]
+      let k : Nat := if s0 == 1 then 0 else if s1 == 1 then 1 else 2
+      let a := nth t (k + 1); let b := nth t (k + 2); let c := cutPoint n o t (k + 2); let d := cutPoint n o t k
+      .pieces [(a, b, c), (c, d, a)]
+    else
+      -- one corner k inside: triangle [v(k), P(k), P(k+2)]
+      let k : Nat := if s0 == -1 then 0 else if s1 == -1 then 1 else 2
+      .pieces [(nth t k, cutPoint n o t k, cutPoint n o t (k + 2))]
+  else if inside s0 s1 s2 then .whole
+  else .dropped
+
+def negV (a : V) : V := (-a.1, -a.2.1, -a.2.2)
+def crossV (a b : V) : V :=
+  (a.2.1 * b.2.2 - a.2.2 * b.2.1, a.2.2 * b.1 - a.1 * b.2.2, a.1 * b.2.1 - a.2.1 * b.1)
+def areaVecR (t : Tri) : V := crossV (subV t.2.1 t.1) (subV t.2.2 t.1)
+def keptTris (t : Tri) : SlicePieces → List Tri
+  | .whole => [t]
+  | .pieces ts => ts
+  | _ => []
+def sumV (l : List V) : V := l.foldl addV (0, 0, 0)
+
 end TV.Slice
